@@ -121,6 +121,65 @@ def _py_result_passthrough(fn):
                    % (ast.unparse(ret.value)[:80], v))
 
 
+def _decoder_type(tree):
+    """The type expression given to msgspec's Decoder(...) in lexer.py, with module-level aliases
+    (`_Packed = tuple[...]`, `Tokens = list[Token]`) substituted, as source text."""
+    alias = {}
+    for st_ in tree.body:
+        if isinstance(st_, ast.Assign) and len(st_.targets) == 1 and isinstance(st_.targets[0], ast.Name):
+            alias[st_.targets[0].id] = st_.value
+        elif isinstance(st_, ast.AnnAssign) and isinstance(st_.target, ast.Name) and st_.value is not None:
+            alias[st_.target.id] = st_.value
+        elif hasattr(ast, "TypeAlias") and isinstance(st_, ast.TypeAlias) and isinstance(st_.name, ast.Name):
+            alias[st_.name.id] = st_.value
+
+    class Sub(ast.NodeTransformer):
+        depth = 0
+
+        def visit_Name(self, node):
+            v = alias.get(node.id)
+            if v is not None and isinstance(v, (ast.Subscript, ast.Name)) and self.depth < 8:
+                self.depth += 1
+                r = self.visit(ast.parse(ast.unparse(v), mode="eval").body)
+                self.depth -= 1
+                return r
+            return node
+    for node in ast.walk(tree):
+        if isinstance(node, ast.Call) and ((isinstance(node.func, ast.Name) and node.func.id == "Decoder") or
+                                           (isinstance(node.func, ast.Attribute) and node.func.attr == "Decoder")):
+            t = node.args[0] if node.args else next((k.value for k in node.keywords if k.arg == "type"), None)
+            if t is not None:
+                return ast.unparse(Sub().visit(ast.parse(ast.unparse(t), mode="eval").body))
+    return None
+
+
+_CACHING = ("cache", "memo")
+
+
+def _py_wrapper_stateless(tree, fn):
+    """The public wrapper computes its result afresh on every call: no caching decorator and no module-level
+    container written or consulted for results.  A cached (list, list, bytes) is shared between callers; an in-place
+    edit by one holder is then what the next caller gets for the same text."""
+    for d in fn.decorator_list:
+        txt = ast.unparse(d).lower()
+        if any(w in txt for w in _CACHING):
+            return False, "lex_program_from_str is decorated with `@%s`: the mutable token / error lists of one call are handed out again for an equal source string" % ast.unparse(d)
+    containers = set()
+    for st_ in tree.body:
+        tgt = st_.targets[0] if isinstance(st_, ast.Assign) and len(st_.targets) == 1 else getattr(st_, "target", None) if isinstance(st_, ast.AnnAssign) else None
+        v = getattr(st_, "value", None)
+        if isinstance(tgt, ast.Name) and (isinstance(v, (ast.Dict, ast.List, ast.Set, ast.DictComp, ast.ListComp)) or
+                                          (isinstance(v, ast.Call) and isinstance(v.func, ast.Name) and v.func.id in
+                                           ("dict", "list", "set", "OrderedDict", "defaultdict", "WeakValueDictionary"))):
+            containers.add(tgt.id)
+    for node in ast.walk(fn):
+        if isinstance(node, ast.Global):
+            return False, "lex_program_from_str declares `global %s`: results depend on module state" % ", ".join(node.names)
+        if isinstance(node, ast.Name) and node.id in containers:
+            return False, "lex_program_from_str uses the module-level container `%s`: results are kept between calls" % node.id
+    return True, "the wrapper has no caching decorator and touches no module-level container"
+
+
 def run(cx):
     cx.rules_run += ["R-WIRE", "R-ENUMS", "R-PY-SOURCE"]
     fpy = cx.facts("py", crate="_sas_lexer_rust")
@@ -143,10 +202,8 @@ def run(cx):
             elems = [F.strip(e).get("ty") or "" for e in arg["elems"]]
     dec = None
     try:
-        src = open(os.path.join(pydir, "lexer.py")).read()
-        m = re.search(r"Decoder\((.+)\)", src)
-        dec = m.group(1) if m else None
-    except OSError:
+        dec = _decoder_type(ast.parse(open(os.path.join(pydir, "lexer.py")).read()))
+    except (OSError, SyntaxError):
         pass
     want = ["ResolvedTokenInfo", "ErrorInfo", "Bytes"]
     ok = len(elems) == 3 and all(w in e for w, e in zip(want, elems))
@@ -252,6 +309,12 @@ def run(cx):
             if isinstance(node, ast.FunctionDef) and node.name == "lex_program_from_str":
                 okr, whyr = _py_result_passthrough(node)
     cx.ob("R-PY-SOURCE", "python-result-passthrough", okr, "src/sas_lexer/lexer.py", whyr)
+    oks, whys = False, "lex_program_from_str not found in src/sas_lexer/lexer.py"
+    if tree is not None:
+        for node in ast.walk(tree):
+            if isinstance(node, ast.FunctionDef) and node.name == "lex_program_from_str":
+                oks, whys = _py_wrapper_stateless(tree, node)
+    cx.ob("R-PY-SOURCE", "python-fresh-result", oks, "src/sas_lexer/lexer.py", whys)
     cx.count("R-WIRE", "fields", nfields)
     cx.count("R-ENUMS", "values", nvals)
     cx.assume("rmp_serde / serde_repr / msgspec positional encoding contracts; runtime behaviour of the published crate is outside the tree")
